@@ -1,29 +1,78 @@
-use ascent::ascent_par;
-ascent_par! {
-   struct Tc;
-   relation edge(u32, u32);
-   relation path(u32, u32);
-   path(x, y) <-- edge(x, y);
-   path(x, z) <-- edge(x, y), path(y, z);
+mod case;
+mod driver;
+mod exec;
+mod gen;
+mod json;
+mod known;
+mod minimize;
+mod oracle;
+mod sched;
+mod spec;
+mod worker;
+
+use std::path::PathBuf;
+
+fn arg_after(args: &[String], flag: &str) -> Option<String> {
+   args.iter().position(|a| a == flag).and_then(|i| args.get(i + 1).cloned())
 }
+
 fn main() {
-   let mut cfg = shuttle::Config::new();
-   cfg.stack_size = 1 << 20;
-   cfg.failure_persistence = shuttle::FailurePersistence::None;
-   let sched = shuttle::scheduler::RandomScheduler::new_from_seed(1, 200);
-   let t = std::time::Instant::now();
-   let n = shuttle::Runner::new(sched, cfg).run(|| {
-      rayon_core::sim::begin_execution(rayon_core::sim::SimConfig { global_threads: 4, steal_permille: 500 });
-      verif_rt::begin(&Default::default());
-      let mut p = Tc::default();
-      for i in 0..6u32 { p.edge.push((i, i + 1)); p.edge.push((i, (i + 2) % 7)); }
-      p.run();
-      let mut rows: Vec<_> = p.path.iter().map(|r| *r).collect();
-      rows.sort();
-      let n = rows.len(); rows.dedup();
-      assert_eq!(n, rows.len());
-      let c = verif_rt::end();
-      let _ = c;
-   });
-   println!("{} executions in {:?}; stats {:?}", n, t.elapsed(), rayon_core::sim::take_stats());
+   let args: Vec<String> = std::env::args().skip(1).collect();
+   match args.first().map(|s| s.as_str()) {
+      Some("check") => {
+         let id = args.get(1).cloned().unwrap_or_default();
+         let tier = args.get(2).cloned().unwrap_or_else(|| "quick".into());
+         driver::check_main(&id, &tier);
+      },
+      Some("worker") => {
+         let check = arg_after(&args, "--check").unwrap();
+         let tier = arg_after(&args, "--tier").unwrap();
+         let seed: u64 = arg_after(&args, "--seed").unwrap().parse().unwrap();
+         let from: u64 = arg_after(&args, "--from").unwrap().parse().unwrap();
+         let to: u64 = arg_after(&args, "--to").unwrap().parse().unwrap();
+         let out = PathBuf::from(arg_after(&args, "--out").unwrap());
+         let sum = worker::run_range(&check, tier == "thorough", seed, from, to, &gen::gen_case);
+         std::fs::write(&out, serde_json::to_string(&sum).unwrap()).unwrap();
+      },
+      Some("replay") => {
+         let json_mode = args.iter().any(|a| a == "--json");
+         let file = args.iter().skip(1).find(|a| !a.starts_with("--")).expect("replay <file>");
+         let text = std::fs::read_to_string(file).unwrap_or_else(|e| driver::harness_error(&format!("cannot read {}: {}", file, e)));
+         let case: case::Case = serde_json::from_str(&text).unwrap_or_else(|e| driver::harness_error(&format!("cannot parse {}: {}", file, e)));
+         exec::pin_process(case.proc_first_pool);
+         let obs = exec::execute(&case);
+         let v = oracle::judge(&case, &obs);
+         if json_mode {
+            println!(
+               "REPLAY-JSON {}",
+               serde_json::json!({"class": v.as_ref().map(|v| v.class.clone()), "detail": v.as_ref().map(|v| v.detail.clone()).unwrap_or_default(), "hash": obs.sched.hash})
+            );
+            return;
+         }
+         println!("replayed {}: {} steps, {} preemptions, trace hash {:016x}", file, obs.sched.steps, obs.sched.preemptions, obs.sched.hash);
+         match v {
+            Some(v) => {
+               println!("violation: {}: {}", v.class, v.detail);
+               println!("VIOLATION property={} replay={}", case.check, file);
+               std::process::exit(1);
+            },
+            None => println!("no violation"),
+         }
+      },
+      Some("gen") => {
+         // print the case a (check, seed, index) denotes
+         let check = args.get(1).cloned().unwrap();
+         let seed: u64 = args.get(2).unwrap().parse().unwrap();
+         let index: u64 = args.get(3).unwrap().parse().unwrap();
+         println!("{}", serde_json::to_string_pretty(&gen::gen_case(&check, false, seed, index)).unwrap());
+      },
+      Some("programs") =>
+         for p in exec::registry() {
+            println!("{} tags={:?} variants={:?} positive={}", p.name, p.tags, p.variants.iter().map(|v| v.name()).collect::<Vec<_>>(), p.positive);
+         },
+      _ => {
+         eprintln!("usage: vsim check <id> <quick|thorough> | worker ... | replay [--json] <file> | gen <check> <seed> <index> | programs");
+         std::process::exit(2);
+      },
+   }
 }
